@@ -215,13 +215,14 @@ def r3_r4(model, rep):
             if len(got) != 2 or vkey(got[0]) != vkey(want[0]) or vkey(got[1]) != vkey(want[1]):
                 ok = False
                 rep.violation("R3", construct, where, "a one-row table is interpolated over (%s), expected (T['io'], T['%s'][0]) of the validated table" % (", ".join(show_value(x) for x in got), ckey), "1-D block args")
-            # selected by len(T['vi']) == 1
-            sel = [g for g in lf.guards if "len" in show_f(g) and "'vi'" in show_f(g)]
-            if not sel:
+            if one_row(lf, troot) is not True:
                 ok = False
-                rep.violation("R3", construct, where, "the 1-D interpolator is not selected by a one-row table", "1-D selection")
+                rep.violation("R3", construct, where, "the 1-D interpolator is not selected exactly for a one-row table (len(T['vi']) == 1)", "1-D selection")
         else:
             n_blocks += 1
+            if one_row(lf, troot) is not False:
+                ok = False
+                rep.violation("R3", construct, where, "the 2-D interpolator is not selected exactly for tables with more than one row", "2-D selection")
             if not flat:
                 ok = False
                 rep.violation("R3", construct, where, "the 2-D interpolator is not fed by the table flattening idiom", "no flatten")
@@ -244,6 +245,31 @@ def r3_r4(model, rep):
                         rep.violation("R3", construct, where, "the table flattened (%s) is not the table validated (%s)" % (info["table"], troot), "flatten table")
         rep.instance("R3/R4", construct + " table block (%s)" % e[1], where, ok)
     rep.floor("R3", n_blocks, 7)
+    # every accepting path of a kind with tables builds exactly one interpolator and keeps it
+    for kind in ("VLoss", "Converter", "LinReg", "PSwitch", "PMux", "Rectifier"):
+        owner, fn, leaves = ctor_paths(model, kind)
+        ok = True
+        for lf in leaves:
+            if lf.kind == "raise":
+                continue
+            built = [e for e in lf.events if e[0] == "interp"]
+            kept = [e for e in lf.events if e[0] == "store" and e[1][0] == "attr" and e[1][2] == "_ipr" and isinstance(e[2], Sym) and e[2].key[0] == "interp"]
+            if len(built) != 1 or len(kept) != 1:
+                ok = False
+                rep.violation("R3", "components.%s.__init__" % kind, "%s:%d" % (rel, fn.lineno), "an accepting path builds %d and keeps %d interpolator(s), expected exactly one" % (len(built), len(kept)), "interpolators per path %d/%d" % (len(built), len(kept)))
+                break
+        rep.instance("R3", "components.%s.__init__ one interpolator per accepting path" % kind, "%s:%d" % (rel, fn.lineno), ok)
+
+
+def one_row(lf, troot):
+    """truth value, on this path, of len(T['vi']) == 1 (None if the path does not decide it)"""
+    lits = {}
+    for g in lf.guards:
+        literals(g, True, lits)
+    want = RF.atom(("nn", Sym(("len", Sym(("sub", Sym(("name", troot)), "vi")))))) - 1
+    from ..guards import norm_pm
+    key = ("ZP", norm_pm(want))
+    return lits.get(key)
 
 
 def table_aliases(fn, name):
